@@ -57,10 +57,19 @@ class Lifecycle(e2.System):
     ops = OPS
 
     def __init__(self, max_ctx=3):
+        import fickling.context
+        import fickling.hook
+        import fickling.loader
+        import fickling.ml
+
         self.max_ctx = max_ctx
+        # own every piece of module-level state the operations could touch
+        self.mstate = e2.ModuleState([fickling.hook, fickling.context, fickling.loader, fickling.ml])
 
     def fresh(self):
         import vp_sink
+
+        self.mstate.restore()
 
         pickle.load, pickle.loads = ORIG["load"], ORIG["loads"]
         _pickle.load, _pickle.loads = ORIG["cload"], ORIG["cloads"]
